@@ -329,7 +329,10 @@ func (p *Program) Run(fn *ssa.Function, intArgs []int, cfg RunConfig) (res *RunR
 		globals: make(map[*ssa.Global]*value),
 		run:     run,
 		inited:  map[*ssa.Package]bool{},
+		abort:   make(chan struct{}),
 	}
+	// when the run is over, unwind every goroutine still parked
+	defer i.abortOnce.Do(func() { close(i.abort) })
 	if cfg.Trace {
 		i.mode |= EnableTracing
 	}
@@ -474,8 +477,55 @@ func (i *interpreter) textOf(itf iface) (string, bool) {
 	return "", false
 }
 
+// spawn runs an interpreted goroutine on a native goroutine. Whatever ends
+// the run there (violation, engine error, escaped panic) is handed to the
+// main goroutine through abort.
 func (i *interpreter) spawn(fr *frame, instr *ssa.Go, fn value, args []value) {
-	panic(engineErrorf("go statement not supported outside thread mode (%s)", i.site(instr)))
+	i.threads++
+	if i.threads > 64 {
+		panic(engineErrorf("more than 64 goroutines spawned (%s)", i.site(instr)))
+	}
+	go func() {
+		defer func() {
+			r := recover()
+			if r == nil {
+				return
+			}
+			if _, ok := r.(threadAbort); ok {
+				return
+			}
+			i.abortOnce.Do(func() {
+				i.abortVal = asEngineError(r)
+				close(i.abort)
+			})
+		}()
+		call(i, nil, instr.Pos(), fn, args)
+	}()
+}
+
+func (i *interpreter) aborted() {
+	if i.abortVal != nil {
+		panic(i.abortVal)
+	}
+	panic(threadAbort{})
+}
+
+func (i *interpreter) chanSend(ch chan value, v value) {
+	select {
+	case ch <- v:
+	case <-i.abort:
+		i.aborted()
+	}
+}
+
+func (i *interpreter) chanRecv(ch chan value) (value, bool) {
+	select {
+	case v, ok := <-ch:
+		return v, ok
+	case <-i.abort:
+		i.aborted()
+	}
+	return nil, false
 }
 
 func (i *interpreter) selectInstr(fr *frame, instr *ssa.Select) value {
